@@ -66,12 +66,18 @@ def make_config(rng):
     if hk == "explicit" and "modes" in dom and dom["modes"] != [nx, ny]:
         # truncated modes need the padded size's parity: keep the halo a whole number of cells on both axes -> pad even
         del dom["modes"]
-    lk = str(rng.choice(["default", "output_levels", "full_output"]))
-    if lk == "output_levels":
+    lk = str(rng.choice(["default", "output_levels", "full_output", "both_options"]))
+    if lk in ("output_levels", "both_options"):
         k = int(rng.integers(1, min(4, nz) + 1))
         dom["output_levels"] = sorted(int(i) for i in rng.choice(nz + 1, size=k, replace=False))
         if rng.random() < 0.5:
             dom["output_levels"] = [int(i) for i in rng.permutation(dom["output_levels"])]
+        if lk == "both_options":   # explicit levels added to a configuration that also asks for the full column: the explicit list wins
+            dom["full_output"] = True
+        if rng.random() < 0.3:
+            # a node above the measurement node: the column continues to twice the tower height and has at least nz + 2 nodes whenever the
+            # roughness length is below 0.3 z_m (the mapped coordinate reaches 2 z_m after more than n steps); node nz + 1 always exists
+            dom["output_levels"] = dom["output_levels"] + [nz + 1]
     elif lk == "full_output":
         dom["full_output"] = True
     fk = str(rng.choice(["ustar", "z0", "both"]))
